@@ -69,6 +69,7 @@ fn main() {
         "alloc" => codec::alloc_bound(seed),
         "packets" => packets::roundtrip(seed),
         "locale" => conn::locale(seed),
+        "limits" => conn::limits(seed),
         "cookie_unparseable" => conn::cookie_unparseable(seed),
         "malformed" => packets::malformed(seed),
         other => {
